@@ -140,3 +140,53 @@ Theorem C18_validate_set_struct_keys_refuted : exists e et l,
   same (nth 0%nat l HNil) (nth 1%nat l HNil) = true /\ validate_set e et l = true.
 Proof. exists Witness.E, Witness.tKI, Witness.sk_set. exact struct_keys_set_witness. Qed.
 Print Assumptions C18_validate_set_struct_keys_refuted.
+
+(* ---- deep copies, and what the code computes on ALL shaped values (extension round) ---- *)
+
+(* the specification never looks at addresses *)
+Theorem C18_same_ignores_addresses : forall d x y, same x (readdr d y) = same x y.
+Proof. exact same_readdr_r. Qed.
+Print Assumptions C18_same_ignores_addresses.
+
+(* "equal deep copies": a NaN-free value without struct-typed map keys, rebuilt from fresh objects
+   (every address shifted, none in common), is DeepEqual to the original; any IDL type *)
+Theorem C18_deep_copy_equal : forall e k t x d,
+  shape e k t x = true -> no_struct_keys x = true -> nan_free x = true ->
+  disjointb x (readdr d x) = true ->
+  deq e t x (readdr d x) = true.
+Proof. exact deep_copy_equal. Qed.
+Print Assumptions C18_deep_copy_equal.
+
+Example C18_deep_copy_inhabited :
+  disjointb Witness.dom_x (readdr 100 Witness.dom_x) = true /\
+  gen_deep_eq Witness.E Witness.M Witness.dom_x (readdr 100 Witness.dom_x) = true.
+Proof. exact copy_witness. Qed.
+
+(* full strength, no restriction on keys: on EVERY pair of shaped values whose heap is consistent
+   (heap_okb: a shared address names one object, without NaN) the generated comparison is structural
+   equality with map keys matched the way Go matches them (same_pk: a struct-typed key is the
+   object itself).  The recorded finding is exactly the distance between same_pk and same. *)
+Theorem C18_deq_exact_all_shaped : forall e t kx ky x y,
+  shape e kx t x = true -> shape e ky t y = true -> heap_okb x y = true -> deq e t x y = same_pk x y.
+Proof. exact deq_same_pk. Qed.
+Print Assumptions C18_deq_exact_all_shaped.
+
+Theorem C18_same_pk_is_same_without_struct_keys : forall x y,
+  no_struct_keys x = true -> no_struct_keys y = true -> same_pk x y = same x y.
+Proof. exact same_pk_same. Qed.
+Print Assumptions C18_same_pk_is_same_without_struct_keys.
+
+Example C18_exact_on_struct_keys :
+  heap_okb Witness.sk_x Witness.sk_y = true /\
+  same_pk Witness.sk_x Witness.sk_y = false /\ gen_deep_eq Witness.E Witness.M Witness.sk_x Witness.sk_y = false /\
+  same Witness.sk_x Witness.sk_y = true.
+Proof. exact pk_witness. Qed.
+
+(* the uniqueness check of Write, struct-typed keys included: refused exactly when two elements are
+   equal in the sense of same_pk *)
+Theorem C18_validate_set_exact_all_shaped : forall e et l,
+  set_domain_pk e et l = true ->
+  (validate_set e et l = false <->
+   exists i j, (i < j < length l)%nat /\ same_pk (nth i l HNil) (nth j l HNil) = true).
+Proof. exact validate_set_pk_spec. Qed.
+Print Assumptions C18_validate_set_exact_all_shaped.
